@@ -1,0 +1,65 @@
+//go:build verif
+
+package types
+
+// (checked by /verif/gocv; comment-only file)
+
+// A returned result matches a stored operation only if identifier, type and request payload are all equal.
+//@ func (*Operation).Equal
+//@   requires o != nil && o2 != nil
+//@   pure
+//@   ensures[C15.equal] result == nil <==> (o.ID == o2.ID && o.Type == o2.Type && content(o.Payload) == content(o2.Payload))
+
+// ---- JSON judgements: an operation travels node -> file -> airgapped machine -> file -> HTTP form -> DTO -> node
+//@ import requests "github.com/lidofinance/dc4bc/client/api/http_api/requests"
+//@ import dto "github.com/lidofinance/dc4bc/client/api/dto"
+//@ import responses "github.com/lidofinance/dc4bc/fsm/types/responses"
+//@ import storage "github.com/lidofinance/dc4bc/storage"
+//@ import fsmtypes "github.com/lidofinance/dc4bc/fsm/types"
+//@ roundtrip[C15.rt.operation] Operation
+//@ roundtrip[C15.rt.message] storage.Message
+//@ jsoncompat[C15.compat.form] Operation -> requests.OperationForm
+//@ jsoncompat[C15.compat.back] requests.OperationForm -> Operation
+// every response type that becomes an operation payload
+//@ roundtrip[C15.rt.payload.invitations] responses.SignatureProposalParticipantInvitationsResponse
+//@ roundtrip[C15.rt.payload.pubkeys] responses.DKGProposalPubKeysParticipantResponse
+//@ roundtrip[C15.rt.payload.commits] responses.DKGProposalCommitParticipantResponse
+//@ roundtrip[C15.rt.payload.deals] responses.DKGProposalDealParticipantResponse
+//@ roundtrip[C15.rt.payload.responses] responses.DKGProposalResponseParticipantResponse
+//@ roundtrip[C15.rt.payload.signing] responses.SigningPartialSignsParticipantInvitationsResponse
+//@ roundtrip[C15.rt.payload.redkg] ReDKG
+//@ roundtrip[C03.rt.reconstructed] fsmtypes.ReconstructedSignature
+
+// The confirmation hash shown to operators covers, in this order: the round id, the threshold, for every
+// participant its three keys and its name, and for every message its payload, signature, recipient, event,
+// sender, round id and offset (one obligation per write into the hashed buffer; the loops are range loops over
+// all participants and all messages).
+//@ func CalcStartReInitDKGMessageHash
+//@   nosafety
+//@   pure
+//@   modifies $bufc
+//@   assert@call NewBuffer[C20.hash.covers] content(buf) == bytesof(loc(msg).DKGID)
+//@   assert@call Write#1[C20.hash.covers] content(arg0) == bytesof(fmtInt(loc(msg).Threshold))
+//@   assert@call Write#2[C20.hash.covers] content(arg0) == content(loc(p).NewCommPubKey)
+//@   assert@call Write#3[C20.hash.covers] content(arg0) == content(loc(p).OldCommPubKey)
+//@   assert@call Write#4[C20.hash.covers] content(arg0) == content(loc(p).DKGPubKey)
+//@   assert@call Write#5[C20.hash.covers] content(arg0) == bytesof(loc(p).Name)
+//@   assert@call Write#6[C20.hash.covers] content(arg0) == content(loc(m).Data)
+//@   assert@call Write#7[C20.hash.covers] content(arg0) == content(loc(m).Signature)
+//@   assert@call Write#8[C20.hash.covers] content(arg0) == bytesof(loc(m).RecipientAddr)
+//@   assert@call Write#9[C20.hash.covers] content(arg0) == bytesof(loc(m).Event)
+//@   assert@call Write#10[C20.hash.covers] content(arg0) == bytesof(loc(m).SenderAddr)
+//@   assert@call Write#11[C20.hash.covers] content(arg0) == bytesof(loc(m).DkgRoundID)
+//@   assert@call Write#12[C20.hash.covers] content(arg0) == bytesof(fmtUint(loc(m).Offset))
+//@   assert@call Write#13[C20.hash.covers] false
+//@   assert@call Sum[C20.hash.covers] content(arg0) == $bufc[loc(hashPayload)]
+// ... and must determine them: the hashed bytes are an injective encoding of the fields (length-delimited)
+//@   assert@call Sum[C20.hash.injective] content(arg0) == reinitEncoding(loc(msg).DKGID, loc(msg).Threshold, loc(msg).Participants, loc(msg).Messages)
+//@ ghost func reinitEncoding(id string, threshold int, participants []Participant, messages []storage.Message) bytesvalue
+
+// file names of operations are built from prefixes of identifiers of any length
+//@ func (*Operation).Filename
+//@   safety C18
+//@   safetykinds slice bounds
+//@   requires o != nil
+//@   modifies *
